@@ -27,6 +27,13 @@ LAYERS = {
         'extra': {'quick': [], 'thorough': ['-conc', '8']},
         'crash_props': ['C18'],
     },
+    'l5race': {
+        'harness_layer': 'l5', 'race': True, 'only_tier': 'thorough',
+        'n': {'quick': 0, 'thorough': 20},
+        'shards': {'quick': 1, 'thorough': 2},
+        'extra': {'quick': [], 'thorough': ['-conc', '30']},
+        'crash_props': ['C18'],
+    },
     'l4': {
         'n': {'quick': 10000, 'thorough': 60000},
         'shards': {'quick': 1, 'thorough': 8},
@@ -76,7 +83,7 @@ PROPS = {
     'C06': {'layers': ['l3', 'l4'], 'modelled_not_verified': ["database/sql convertAssign / Scanner.Scan are a parameter `conv` answered per case by the installed database/sql (oracle)", "destinations are flattened field stores produced by the harness translator", "the state of a direct target whose conversion failed is unspecified"], 'assumptions': ["foreign columns are not of the exact form _sqlair_<n> (the library's reserved alias space)"]},
     'C07': {'layers': ['l2'], 'modelled_not_verified': ["database/sql conversion of Go values to driver values is applied by the harness translator (canonical value text), not modelled", "reflect is modelled by type descriptors and value trees produced by reflection over the compiled zoo types (translator in the trusted base)", "error identity under Go map iteration is not compared, only accept/reject (and insert/bulk family)"], 'assumptions': ["the executable bindTypes of the model is the specification of well-typedness"]},
     'C08': {'layers': ['l2'], 'modelled_not_verified': ["database/sql conversion of Go values to driver values is applied by the harness translator (canonical value text), not modelled", "reflect is modelled by type descriptors and value trees produced by reflection over the compiled zoo types (translator in the trusted base)", "error identity under Go map iteration is not compared, only accept/reject (and insert/bulk family)"], 'assumptions': ["the executable validateInputs/bindInputs of the model is the specification of acceptable argument lists"]},
-    'C16': {'layers': ['l2', 'l2race', 'l5'], 'modelled_not_verified': ["database/sql conversion of Go values to driver values is applied by the harness translator (canonical value text), not modelled", "reflect is modelled by type descriptors and value trees produced by reflection over the compiled zoo types (translator in the trusted base)", "error identity under Go map iteration is not compared, only accept/reject (and insert/bulk family)"] + ["data races are not expressible in the model"], 'assumptions': []},
+    'C16': {'layers': ['l2', 'l2race', 'l5', 'l5race'], 'modelled_not_verified': ["database/sql conversion of Go values to driver values is applied by the harness translator (canonical value text), not modelled", "reflect is modelled by type descriptors and value trees produced by reflection over the compiled zoo types (translator in the trusted base)", "error identity under Go map iteration is not compared, only accept/reject (and insert/bulk family)"] + ["data races are not expressible in the model"], 'assumptions': []},
     'C17': {'layers': ['sqlite'], 'modelled_not_verified': ["SQLite's parser and semantics are observed (real go-sqlite3), not modelled"], 'assumptions': []},
     'C09': {'layers': ['l5', 'l4'], 'modelled_not_verified': ["per-connection re-prepare of an sql.Stmt is database/sql's (exact logs use one pooled connection; several connections are checked by invariants)"], 'assumptions': []},
     'C10': {'layers': ['l5'], 'modelled_not_verified': ["which objects the Go runtime considers reachable (liveness of the Query closure's captured Statement/DB, Iterator->driverStmt edge) and finalizer scheduling are the enabling conditions of the finalizer steps: an assumption, sampled by forced-GC histories"], 'assumptions': []},
